@@ -25,7 +25,7 @@ from ..consteval import ConstEval, EnumVal, enum_members
 from ..core import (AnalysisError, FuncInfo, FUNC_TYPES, ap, call_attr, calls, enclosing_stmt, facts,
                     find_calls, kw, norm, parent, set_parents, src, stores, walk)
 from .. import tzlint
-from .common import as_pair
+from .common import as_pair, class_methods_reachable
 
 LLSD = "hippolyzer/lib/base/llsd.py"
 PACK = "hippolyzer/lib/base/message/data_packer.py"
@@ -290,6 +290,35 @@ def _row_fmt(ev, v: ast.Call) -> Optional[str]:
     return None
 
 
+def _init_attrs(repo, ci, args: list, kwargs: dict, depth=0) -> Dict[str, ast.AST]:
+    """attribute name -> constructor argument expression, for `self.x = <param>` in __init__ and its super().__init__ chain"""
+    out: Dict[str, ast.AST] = {}
+    init = repo.lookup_method(ci, "__init__")
+    if init is None or depth > 4:
+        return out
+    a = init.node.args
+    ps = [x.arg for x in a.args][1:]
+    env: Dict[str, ast.AST] = dict(zip(ps, args))
+    env.update({k: v for k, v in kwargs.items() if k in ps})
+    defaults = dict(zip(reversed(ps), reversed(a.defaults)))
+    for p_ in ps:
+        env.setdefault(p_, defaults.get(p_))
+    for st in stores(init.node, into_defs=False):
+        if st.kind == "assign" and st.path.startswith("self.") and st.path.count(".") == 1 and isinstance(st.value, ast.Name) \
+                and env.get(st.value.id) is not None:
+            out[st.path[5:]] = env[st.value.id]
+    for c in calls(init.node):
+        if ap(c.func) == "super().__init__" and init.cls is not None:
+            bases = repo.mro(init.cls)[1:]
+            if bases:
+                sub_args = [env.get(x.id) if isinstance(x, ast.Name) and x.id in env else x for x in c.args]
+                sub_kw = {k.arg: (env.get(k.value.id) if isinstance(k.value, ast.Name) and k.value.id in env else k.value)
+                          for k in c.keywords if k.arg}
+                for k_, v_ in _init_attrs(repo, bases[0], sub_args, sub_kw, depth + 1).items():
+                    out.setdefault(k_, v_)
+    return out
+
+
 def _resolve_callable(repo, f: FuncInfo, e, depth=0):
     """Function-like things an expression inside factory f may denote:
     [(params: list of names, body_returns: list of exprs, def_node, bound: {param: arg expr}, site)]"""
@@ -313,6 +342,16 @@ def _resolve_callable(repo, f: FuncInfo, e, depth=0):
                         out.append(([a.arg for a in g.node.args.args],
                                     [n.value for n in walk(g.node) if isinstance(n, ast.Return) and n.value is not None],
                                     g.node, {}, e))
+    elif isinstance(e, ast.Call) and isinstance(e.func, ast.Name) and repo.resolve_class(e.func.id, f.module) is not None \
+            and repo.lookup_method(repo.resolve_class(e.func.id, f.module), "__call__") is not None:
+        # an instance of a callable class used in place of a closure: __call__ is the function, the constructor
+        # arguments are the constants it closes over (self.<attr> bound through __init__ / super().__init__)
+        ci = repo.resolve_class(e.func.id, f.module)
+        m = repo.lookup_method(ci, "__call__")
+        bound = {"self." + k: v for k, v in _init_attrs(repo, ci, list(e.args), {k.arg: k.value for k in e.keywords if k.arg}).items()}
+        bound["self"] = e
+        out.append(([a.arg for a in m.node.args.args], [n.value for n in walk(m.node) if isinstance(n, ast.Return) and n.value is not None],
+                    m.node, bound, e))
     elif isinstance(e, ast.Call) and (ap(e.func) or "").split(".")[-1] == "partial" and e.args:
         for params, rets, d, bound, _ in _resolve_callable(repo, f, e.args[0], depth + 1):
             b = dict(bound)
@@ -415,7 +454,7 @@ def r1(ctx):
     ups = _resolve_callable(repo, fac, up)
     ok_up = bool(ups)
     for params, urets, d, bound, _ in ups:
-        free = [p_ for p_ in params if p_ not in bound]
+        free = [p_ for p_ in params if p_ not in bound and p_ not in ("self", "cls")]
         for r_ in urets:
             callee = ap(r_.func) if isinstance(r_, ast.Call) else None
             callee_is_typ = callee == typ_param or (callee in bound and ap(bound[callee]) == typ_param)
@@ -447,8 +486,18 @@ def r1(ctx):
                     if g_.module is f.module and g_.cls is None and g_.parent_fn is None and g_ is not f and \
                             not any(c_[0] is g_.node for c_ in cands):
                         cands.append((g_.node, n_))
+        labels = {id(d_): d_.name for d_, _ in cands}
+        for n_ in walk(f.node):
+            if isinstance(n_, ast.Name) and isinstance(n_.ctx, ast.Load):
+                kci = repo.resolve_class(n_.id, f.module)
+                if kci is not None and kci.module is f.module and repo.lookup_method(kci, "__call__") is not None:
+                    for meth in class_methods_reachable(repo, repo.lookup_method(kci, "__call__"), depth=2):
+                        if meth.name != "__init__" and not any(c_[0] is meth.node for c_ in cands):
+                            cands.append((meth.node, n_))
+                            labels[id(meth.node)] = f"{meth.cls.name}.{meth.name}" if meth.cls else meth.name
         for d, site in cands:
             cfg = CFG(d)
+            dname = labels.get(id(d), d.name)
             rebinds = [s for s in stores(d, into_defs=False) if s.kind == "assign" and isinstance(s.target, ast.Name)
                        and isinstance(s.value, ast.Call) and call_attr(s.value) == "data"
                        and isinstance(s.value.func, ast.Attribute)]
@@ -466,13 +515,13 @@ def r1(ctx):
                         stn = enclosing_stmt(n)
                         if any(cn in after for cn in cfg.stmt_nodes_containing(n)) or stn is None:
                             bad.append(n)
-            key = f"{f.qual}.{d.name}[{branch}]: names rebound to .data() are used as tuples"
+            key = f"{f.qual}.{dname}[{branch}]: names rebound to .data() are used as tuples"
             ctx.ob("C12.R1", key, not bad, ctx.w(f, d),
                    "" if not bad else f"`{norm(bad[0])}` after `{norm(rebinds[0].node)}`: TupleCoord.data() returns a tuple, "
                    f"which has no attribute {bad[0].attr!r} (AttributeError for every value of this type)")
             # the packer yields the elements themselves
             prets = [n for n in walk(d) if isinstance(n, ast.Return) and n.value is not None]
-            ctx.ob("C12.R1", f"{f.qual}.{d.name}[{branch}]: packer returns on every path", bool(prets), ctx.w(f, d))
+            ctx.ob("C12.R1", f"{f.qual}.{dname}[{branch}]: packer returns on every path", bool(prets), ctx.w(f, d))
             if side == "llsd" and prets:
                 # the unpacker is a plain typ(*array) (checked above), so the packer must hand the components over
                 # unchanged: no arithmetic on elements of the value
@@ -489,7 +538,7 @@ def r1(ctx):
                     elif isinstance(n_, ast.BinOp) and not isinstance(n_.op, (ast.BitAnd, ast.BitOr)) and any(
                             isinstance(o, ast.Name) and o.id in _comp_vars(d, names) for o in (n_.left, n_.right)):
                         arith.append(n_)
-                ctx.ob("C12.R1", f"{f.qual}.{d.name}[{branch}]: packer hands the components over unchanged", not arith, ctx.w(f, d),
+                ctx.ob("C12.R1", f"{f.qual}.{dname}[{branch}]: packer hands the components over unchanged", not arith, ctx.w(f, d),
                        "" if not arith else f"`{norm(arith[0])}` alters component values, but the unpacker rebuilds the coordinate "
                        f"from the array as it is: some value does not come back equal")
 
@@ -516,6 +565,27 @@ def r1(ctx):
             return any(_in_specs(c, True, v.elt.id) or (isinstance(c, ast.UnaryOp) and isinstance(c.op, ast.Not)
                                                         and _in_specs(c.operand, False, v.elt.id))
                        for gen in v.generators for c in gen.ifs)
+        if (isinstance(v, ast.Subscript) and (ap(v.value) or "").startswith("self.")) or \
+                (isinstance(v, ast.Call) and call_attr(v) == "get" and (ap(v.func.value) or "").startswith("self.")):
+            # direct read of a memo table: fine when everything stored there is a filtered list, or a list that is
+            # only ever filled with filter-dominated appends
+            cache = ap(v.value) if isinstance(v, ast.Subscript) else ap(v.func.value)
+            ok = False
+            for h in (g.cls.methods.values() if g.cls else [g]):
+                for cs in stores(h.node, into_defs=True):
+                    if cs.kind == "setitem" and cs.path == cache and isinstance(cs.node, ast.Assign):
+                        aliases = {t.id for t in cs.node.targets if isinstance(t, ast.Name)}
+                        if isinstance(cs.value, ast.Name):
+                            aliases.add(cs.value.id)
+                        apps = [c for c in calls(h.node) if isinstance(c.func, ast.Attribute) and c.func.attr == "append"
+                                and ap(c.func.value) in aliases and c.args]
+                        if cs.value is not None and _filtered_value(h, cs.value, memo, depth + 1, True):
+                            ok = True
+                        elif apps and all(any(_in_specs(e, pol, ap(c.args[0]) or "") for e, pol in facts(c, h.node)) for c in apps):
+                            ok = True
+                        else:
+                            return False
+            return ok
         if isinstance(v, ast.Name):
             vals = [st for st in stores(g.node, into_defs=False) if st.path == v.id]
             if not vals or any(st.kind != "assign" or st.value is None for st in vals):
@@ -559,6 +629,7 @@ def r1(ctx):
 
     ok_y = True
     memo: list = []
+    memo_partial: list = []
     for y in yields:
         v = y.value
         var = ap(v.elts[1]) if isinstance(v, ast.Tuple) and len(v.elts) == 2 else None
@@ -574,12 +645,28 @@ def r1(ctx):
                     g = repo.lookup_method(yv.cls, it.func.attr)
                     if g is not None:
                         rets = [n for n in walk(g.node) if isinstance(n, ast.Return) and n.value is not None]
-                        good = bool(rets) and all(_filtered_value(g, r.value, memo) for r in rets)
+                        gys = [n for n in walk(g.node) if isinstance(n, (ast.Yield, ast.YieldFrom))]
+                        if gys:
+                            # generator helper: every yielded variable is filtered; `yield from` only of filtered values
+                            good = True
+                            for gy in gys:
+                                if isinstance(gy, ast.Yield):
+                                    vn = ap(gy.value) if gy.value is not None else None
+                                    good = good and vn is not None and any(_in_specs(e, pol, vn) for e, pol in facts(gy, g.node))
+                                else:
+                                    good = good and _filtered_value(g, gy.value, memo)
+                            _generator_memo(ctx, g, memo_partial)
+                        else:
+                            good = bool(rets) and all(_filtered_value(g, r.value, memo) for r in rets)
                 else:
                     good = _filtered_value(yv, it, memo)
         ok_y = ok_y and good
     ctx.ob("C12.R1", "_yield_vars selects exactly the variables whose type is in LLSDDataPacker.SPECS", ok_y, yv.where,
            "a yielded (block, tmpl_var) pair is not guarded by `tmpl_var.type in LLSDDataPacker.SPECS`")
+    for h, node, what in memo_partial:
+        ctx.ob("C12.R1", f"{h.qual}: memo entry {what} is complete before it becomes visible", False, ctx.w(h, node),
+               "the list is stored in the memo table and then filled while the generator yields: a consumer that stops "
+               "iterating (or an exception) leaves a truncated variable list cached for every later message")
     for h, node, cache, key, missing in memo:
         ctx.ob("C12.R1", f"{h.qual}: memo table {cache} is keyed by every input of the memoised variable list", not missing,
                ctx.w(h, node), f"key `{key}` is only a projection of {missing}: two different template blocks with the same "
@@ -632,7 +719,7 @@ def r1(ctx):
                 ok_o = bool(outs) and all(arg in {ap(x) for x in ast.walk(o)} for o in outs)
             else:
                 fd = find_calls(f.node, "from_dict")
-                ok_o = len(fd) == 1 and fd[0].args and ap(fd[0].args[0]) == arg
+                ok_o = len(fd) == 1 and fd[0].args and arg in {ap(x) for x in ast.walk(fd[0].args[0])}
             ctx.ob("C12.R1", f"{side} hands on the dict it converted", bool(ok_o), ctx.w(f, lp))
 
     r1_alias(ctx, des)
@@ -675,6 +762,26 @@ def _deep_fresh(ctx, f: FuncInfo, value: ast.AST, at: ast.AST, shared: Set[str],
                             not any(s.path in gparams for s in stores(g.node)):
                         return True, f"helper {g.qual} returns a deep copy"
     return False, f"`{norm(value)}` may share nested containers with the argument"
+
+
+def _generator_memo(ctx, g: FuncInfo, out: list):
+    """In generator g: a list stored into a self.<memo>[...] entry and appended to after a yield can be observed half built."""
+    cfg = CFG(g.node)
+    ys = [n for y in walk(g.node) if isinstance(y, (ast.Yield, ast.YieldFrom)) for n in cfg.stmt_nodes_containing(y)]
+    for st in stores(g.node, into_defs=False):
+        if st.kind == "setitem" and st.path.startswith("self.") and isinstance(st.node, ast.Assign):
+            names = {t.id for t in st.node.targets if isinstance(t, ast.Name)}
+            if isinstance(st.value, ast.Name):
+                names.add(st.value.id)
+            s_nodes = cfg.nodes_for(st.node)
+            after_store = cfg.reachable(s_nodes, exc=False)
+            for c in calls(g.node):
+                if isinstance(c.func, ast.Attribute) and c.func.attr in ("append", "extend", "add") and ap(c.func.value) in names:
+                    a_nodes = set(cfg.stmt_nodes_containing(c))
+                    for y in ys:
+                        if y in after_store and a_nodes & cfg.reachable([y], exc=False):
+                            if not any(o[1] is st.node for o in out):
+                                out.append((g, st.node, st.path))
 
 
 def _comp_vars(fn_node, sources: Set[str]) -> Set[str]:
@@ -1211,10 +1318,14 @@ def r3(ctx):
     repo = ctx.repo
     ctx.rule("C12.R3", "LLSD date codecs never consult the process time zone (tzlint: naive fromtimestamp/timestamp/"
                        "astimezone, time.mktime/localtime)")
-    rels = [LLSD, LEGACY, MSGSER, PACK]
+    # the LLSD codec may be split over modules: follow the binary writer and parser to wherever they live
+    wf = repo.fn("_format_binary_recurse", LLSD)
+    pcls = repo.cls("HippoLLSDBinaryParser", LLSD)
+    codec = [LLSD] + [m for m in (wf.module.rel, pcls.module.rel) if m != LLSD]
+    rels = list(dict.fromkeys(codec + [LEGACY, MSGSER, PACK]))
     sites = tzlint.tz_sites(repo, rels)
-    in_llsd = [s for s in sites if (s[0].module.rel if s[0] is not None else "") == LLSD]
-    ctx.floor("C12.R3", "date conversion sites in llsd.py", len(in_llsd), 3)
+    in_llsd = [s for s in sites if (s[0].module.rel if s[0] is not None else "") in codec]
+    ctx.floor("C12.R3", "date conversion sites in the LLSD codec modules", len(in_llsd), 3)
     counts: Dict[str, int] = {}
     for fi, node, kind, ok, msg in sites:
         key = tzlint.site_key(fi, node, kind)
@@ -1224,7 +1335,6 @@ def r3(ctx):
         mod = fi.module if fi is not None else repo.module(rels[0])
         ctx.ob("C12.R3", key, ok, ctx.w(mod, node), msg)
     # the binary date writer must have a datetime branch that converts through one of the checked sites
-    wf = repo.fn("_format_binary_recurse", LLSD)
     conv = [s for s in in_llsd if s[0] is not None and s[0].qual == wf.qual]
     ctx.ob("C12.R3", "_format_binary_recurse converts dates through lint-visible calls", len(conv) >= 2, wf.where,
            f"found {len(conv)} conversion sites (datetime and date branches)")
@@ -1493,11 +1603,59 @@ def r6(ctx):
                f"unregistered coordinate class")
 
 
+def r7(ctx):
+    """The binary parser keeps the document and its cursor on the instance (parse() stores self._buffer/_index): an
+    instance shared between calls (module / class level, or cached on an object or in a global) is shared scratch
+    state - two overlapping parses corrupt each other."""
+    repo = ctx.repo
+    ctx.rule("C12.R7", "stateful binary parser objects are built per parse: no module-level, class-level or cached instance")
+    tp = ThirdParty()
+    pm = ParserModel(ctx, tp)
+    pmeth = pm.method("parse")
+    ctx.require(pmeth is not None, "C12.R7: parse() of the binary parser not found")
+    state = sorted({ap(t) for n in ast.walk(pmeth[1]) if isinstance(n, ast.Assign) for t in n.targets
+                    if (ap(t) or "").startswith("self.")})
+    ctx.ob("C12.R7", "control: parse() keeps per-document state on the parser instance", bool(state), f"{TP_PKG}/serde_binary.py",
+           "parse() no longer stores the document on self: re-read the premise of C12.R7")
+    classes = [pm.hippo] + repo.subclasses(pm.hippo, strict=True)
+    names = {c.name for c in classes}
+    n = 0
+    for mod in repo.modules.values():
+        for c in calls(mod.tree, into_defs=True):
+            if not (isinstance(c.func, (ast.Name, ast.Attribute)) and (ap(c.func) or "").split(".")[-1] in names):
+                continue
+            ci = repo.resolve_class((ap(c.func) or "").split(".")[-1], mod)
+            if ci not in classes:
+                continue
+            n += 1
+            from ..core import ancestors
+            encl = [a for a in ancestors(c) if isinstance(a, FUNC_TYPES + (ast.Lambda,))]
+            st = enclosing_stmt(c)
+            problem = ""
+            if not encl:
+                problem = "constructed at module / class level"
+            elif isinstance(st, (ast.Assign, ast.AnnAssign)) and (st.value is c):
+                tgts = st.targets if isinstance(st, ast.Assign) else [st.target]
+                fn_node = encl[0]
+                globs = {nm for g_ in ast.walk(fn_node) if isinstance(g_, (ast.Global, ast.Nonlocal)) for nm in g_.names}
+                for t in tgts:
+                    if isinstance(t, (ast.Attribute, ast.Subscript)) or (isinstance(t, ast.Name) and t.id in globs):
+                        problem = f"kept in `{norm(t)}` beyond the call that built it"
+            elif any(isinstance(a, ast.arguments) for a in ancestors(c)):
+                problem = "constructed once as a default argument"
+            where = ctx.w(mod, c)
+            owner = encl[0].name if encl and hasattr(encl[0], "name") else "<module>"
+            ctx.ob("C12.R7", f"{mod.rel}:{owner}: {ci.name}() is built for one parse only", not problem, where,
+                   "" if not problem else f"{problem}: parse() stores {state} on the instance, so overlapping parses "
+                   f"(threads, a parse started while another document is still being read) share one cursor")
+    ctx.floor("C12.R7", "binary parser construction sites", n, 2)
+
+
 def run(ctx):
     # when re-run as a dependency clause of another property only the requested rules are evaluated (an analysis
     # error of a rule the dependent property does not need must not become its analysis error)
     wanted = getattr(ctx, "_rules", None) if getattr(ctx, "_dep", None) == "C12" else None
-    for name, fn in (("R1", r1), ("R2", r2), ("R3", r3), ("R4", r4), ("R5", r5), ("R6", r6)):
+    for name, fn in (("R1", r1), ("R2", r2), ("R3", r3), ("R4", r4), ("R5", r5), ("R6", r6), ("R7", r7)):
         if wanted is None or name in wanted:
             fn(ctx)
     ctx.assume("third-party llsd package sources under /venv/lib/python3.12/site-packages/llsd are parsed, never imported; "
